@@ -8,7 +8,14 @@ Three kinds of cases (first integer of the Lean configuration line selects the m
         device: the same schedule is run again with every transaction, token and stream event that does not
         belong to endpoint k (or to the control endpoint) deleted, for several k, and endpoint k's responses
         (kind, PID = toggle, payload) and delivered data must be identical; plus: a token nobody owns is never
-        answered.
+        answered; plus the host-side toggle ledger (`toggle_ledger`): per IN endpoint the PID the host expects
+        next, per OUT endpoint the PID the endpoint has to accept next, both computed from the endpoint's OWN
+        history only (its ACKed transactions and completed CLEAR_FEATURE(ENDPOINT_HALT) requests naming exactly
+        its number and direction) -- every event that is not the endpoint's own, in particular a halt-clear
+        naming the endpoint with the same number in the other direction, must leave them unchanged (the
+        differential experiment keeps the control transfers in both runs, so it cannot see a control transfer
+        about endpoint X changing endpoint Y).  The host (`C12Host`) regularly plays the shape that needs:
+        IN/OUT pair with one number, toggles brought to DATA1, halt-clear of the twin, traffic on both.
   gate  the real `USBStreamInEndpoint` cycle by cycle against `InGate.epStep` (random interface activity,
         tokens for its own and for other endpoint numbers); monitor: no NAK / no start of a transmission in a
         cycle whose token is not an IN token for its number.
@@ -34,7 +41,11 @@ REQUIRED_THEOREMS = ["in_step_foreign_is_silent", "out_step_foreign_is_silent", 
                      "out_cycle_refines_event", "out_cycle_refines_run", "out_cycle_refines_legal"]
 RULE = ("dev: adaptive legal host schedules (IN/OUT/PING on 5 endpoints, unowned tokens, other devices, lost "
         "handshakes, retries, wrong PIDs, bad CRCs, control transfers incl. CLEAR_FEATURE(ENDPOINT_HALT)) on a "
-        "random endpoint layout, each re-run with the foreign traffic deleted for 3 target endpoints; gate/mux: "
+        "random endpoint layout, each re-run with the foreign traffic deleted for 3 target endpoints; several times "
+        "per schedule the twin scenario: the IN and the OUT endpoint sharing a number are brought to DATA1 (either or "
+        "both), then CLEAR_FEATURE(ENDPOINT_HALT) names one of them (or an endpoint with another number / a number "
+        "nobody has), then both carry traffic and the OUT data is consumed; the toggle ledger judges every data packet "
+        "of every IN endpoint and every delivery of every OUT endpoint against the endpoint's own history; gate/mux: "
         "random per-cycle interface activity; evaluations = host events (dev) or clock cycles (gate, mux)")
 ASSUMPTIONS = [
     "LegalHost (EpDev.LegalHost): USB 2.0 §8.5 transaction formats; a host handshake only directly after a DATA "
@@ -98,13 +109,252 @@ def differential(h, spec, events, results, targets, fails):
                 return
 
 
+class C12Host(E.EpHost):
+    """EpHost + the twin scenario: what a host does around a pipe error on ONE endpoint of a bulk pair
+    (libusb_clear_halt on the OUT endpoint while the IN endpoint is in the middle of its DATA0/DATA1 sequence, and
+    the other way round).  Built from EpHost's own (legal) transactions."""
+
+    P_TWIN = 7            # per schedule step, in percent
+
+    def __init__(self, *a, **kw):
+        super().__init__(*a, **kw)
+        self.pairs = [(i, o) for i in self.ins for o in self.outs if i[1] == o[1]]
+
+    def clear_halt_of(self, idx):
+        """A complete CLEAR_FEATURE(ENDPOINT_HALT) with this wIndex; True when the host ACKed the status ZLP."""
+        yield from self.emit(["tok", S, self.addr, 0])
+        r = yield from self.emit(["data", U.PID_DATA0, DH.setup_bytes(0x02, 1, 0, idx, 0), 1])
+        if not r.resp.is_hs(U.PID_ACK):
+            return False
+        r = yield from self.emit(["tok", I, self.addr, 0])
+        if not r.resp.is_data:
+            return False
+        yield from self.emit(["hs", U.PID_ACK])
+        return True
+
+    def in_to_data1(self, e):
+        """ACKed packets on stream IN endpoint e until an ACKed DATA0 packet: the next one is DATA1."""
+        rng = self.rng
+        for _ in range(5):
+            r = yield from self.emit(["tok", I, self.addr, e[1]])
+            if r.resp.is_data:
+                yield from self.emit(["hs", U.PID_ACK])
+                if r.resp.pid == U.PID_DATA0:
+                    return True
+            else:
+                yield from self.emit(["produce", e[1], rng.bytes(rng.range(1, max(1, e[2] - 1))), 1])
+        return False
+
+    def out_to_data1(self, e):
+        """Accepted packets on stream OUT endpoint e until the host's toggle is DATA1."""
+        for _ in range(4):
+            if self.out_pid[e[1]] == 1:
+                return True
+            if E.out_depth(e) - self.out_fill[e[1]] < e[2]:
+                yield from self.consume(e)
+            n = self.rng.range(1, min(e[2], 3))
+            yield from self.emit(["tok", O, self.addr, e[1]])
+            r = yield from self.emit(["data", U.PID_DATA1 if self.out_pid[e[1]] else U.PID_DATA0, self.rng.bytes(n), 1])
+            if r.resp.is_hs(U.PID_ACK):
+                self.out_fill[e[1]] += n
+                self.out_pid[e[1]] ^= 1
+        return self.out_pid[e[1]] == 1
+
+    def twin(self):
+        rng = self.rng
+        if not self.pairs:
+            return
+        ei, eo = rng.choice(self.pairs)
+        n = ei[1]
+        prep = rng.weighted([(4, "both"), (3, "in"), (2, "out"), (1, "none")])
+        ok_in = ok_out = False
+        if prep in ("both", "in"):
+            ok_in = yield from self.in_to_data1(ei)
+        if prep in ("both", "out"):
+            ok_out = yield from self.out_to_data1(eo)
+        others = [x for x in range(1, 16) if x != n]
+        idx = rng.weighted([(5, n), (4, 0x80 | n), (1, rng.choice(others)), (1, 0x80 | rng.choice(others))])
+        idx |= rng.choice([0, 0, 0, 0x10, 0x7000])          # reserved bits of wIndex are ignored
+        done = yield from self.clear_halt_of(idx)
+        if done:
+            self.tag("twin:clear-%s:%s%s" % ("in" if idx & 0x80 else "out", "in@1" if ok_in else "in@?", ",out@1" if ok_out else ",out@?")
+                     if (idx & 0xF) == n else "twin:clear-other-number")
+            if not idx & 0x80 and (idx & 0xF) in self.out_pid:
+                self.out_pid[idx & 0xF] = 0                 # the host restarts the OUT endpoint it named at DATA0
+        # traffic on both endpoints of the pair (in either order), the OUT data read back
+        steps = ["in", "out"] if rng.chance(50) else ["out", "in"]
+        for s_ in steps + ([rng.choice(steps)] if rng.chance(40) else []):
+            if s_ == "in":
+                yield from self.produce(ei)
+                yield from self.in_txn(ei[1], "in")
+            else:
+                yield from self.out_txn(eo)
+        yield from self.consume(eo)
+
+    def script(self, _harness):
+        """EpHost.script with the twin scenario as a third kind of step."""
+        rng = self.rng
+        for _ in range(self.n_txn):
+            if self.pairs and rng.chance(self.P_TWIN):
+                yield from self.twin()
+            elif rng.chance(10):
+                yield from self.control()
+            else:
+                yield from self.bulk()
+        # drain: what the OUT endpoints still hold, and one more packet from every IN endpoint
+        for e in self.outs:
+            yield from self.emit(["consume", e[1], 100000])
+        for e in self.ins + self.sigs:
+            r = yield from self.emit(["tok", I, self.addr, e[1]])
+            if r.resp.is_data:
+                yield from self.emit(["hs", U.PID_ACK])
+
+
+def run_schedule(h, desc, rng, spec, tags, fails):
+    """ep_util.run_schedule with the C12 host."""
+    try:
+        if desc.get("stimulus"):
+            events = [DH.decode_event(r) for r in desc["stimulus"]]
+            results = h.run_many([events])[0]
+        else:
+            host = C12Host(rng.fork("host"), spec, desc.get("n_txn", 100), "c12")
+            results = h.run_many([host.script])[0]
+            events = host.events
+            tags |= host.tags
+    except RuntimeError as ex:
+        if "does not end" not in str(ex):
+            raise
+        results = list(h.log)
+        events = [r.event for r in results]
+        fails.append({"cycle": len(results), "sig": "c12-babble",
+                      "what": "after %d events the device transmits for more than 6000 cycles without end" % len(results)})
+    return events, results
+
+
+def toggle_ledger(spec, events, results, own, fails, tags):
+    """Host-side ledger per endpoint, from the endpoint's own history only.
+
+    IN (stream / status) endpoint n: the PID of its next data packet is DATA0 at power-on and after a completed
+    CLEAR_FEATURE(ENDPOINT_HALT) with wIndex = 0x80|n, and flips with every packet of n the host ACKed.
+    OUT endpoint n: it accepts DATA0 first and after a completed halt-clear with wIndex = n (direction bit clear); an
+    ACKed packet carrying the expected PID is delivered and flips the expectation, an ACKed packet with the other PID is
+    dropped (a repetition).  Nothing else -- tokens, data, handshakes of other endpoints, control transfers about other
+    endpoints, in particular a halt-clear naming the same number in the other direction -- may change either."""
+    D0, D1, ACK = U.PID_DATA0, U.PID_DATA1, U.PID_ACK
+    in_exp = {e[1]: 0 for e in spec["eps"] if e[0] in ("in", "sig")}
+    out_exp = {e[1]: 0 for e in spec["eps"] if e[0] == "out"}
+    out_bytes = {n: [] for n in out_exp}          # accepted and not yet consumed
+    since = {("in", n): [] for n in in_exp}       # what happened on the bus since the endpoint's previous own event
+    since.update({("out", n): [] for n in out_exp})
+    awaiting = None            # IN endpoint whose data packet was the previous event's response
+    pending_clear = None       # wIndex of a CLEAR_FEATURE(ENDPOINT_HALT) whose SETUP transaction was ACKed
+    status_zlp = False         # previous event: the status-stage IN of that request was answered with a ZLP
+
+    def note(text, but=None):
+        for key, lst in since.items():
+            if key != but:
+                lst.append(text)
+
+    def foreign(key):
+        lst = since[key]
+        txt = ", ".join(lst[-8:]) if lst else "nothing"
+        return ("since %s the bus carried%s: %s" % ("this endpoint's previous packet" if key[0] == "in" else
+                                                     "the last packet of this endpoint that was read back correctly",
+                                                     " (last 8)" if len(lst) > 8 else "", txt))
+
+    for i, (ev, r, o) in enumerate(zip(events, results, own)):
+        k = ev[0]
+        was_awaiting, awaiting = awaiting, None
+        was_zlp, status_zlp = status_zlp, False
+        if k == "tok":
+            if ev[1] == S:
+                pending_clear = None
+            if isinstance(o, tuple) and o[0] in ("in", "sig"):
+                n = o[1]
+                if r.resp.is_data:
+                    bit = 1 if r.resp.pid == D1 else 0
+                    if r.resp.pid not in (D0, D1) or bit != in_exp[n]:
+                        fails.append({"cycle": i, "sig": "c12-in-toggle-changed-by-foreign-traffic",
+                                      "what": "event %d %r: IN endpoint %d sent PID %#x, but by its own history (ACKed packets of this "
+                                              "endpoint, completed halt-clears with wIndex %#x) its next packet is DATA%d; %s"
+                                              % (i, ev, n, r.resp.pid, 0x80 | n, in_exp[n], foreign(("in", n)))})
+                        return
+                    awaiting = n
+                    tags.add("ledger:in-data%d" % bit)
+                    since[("in", n)] = []
+                    note("IN ep%d->DATA%d" % (n, bit), but=("in", n))
+                else:
+                    note("IN ep%d->%r" % (n, r.resp), but=("in", n))
+            elif isinstance(o, tuple):
+                pass                                  # OUT / PING token: noted with its data packet
+            elif o == "ctl":
+                if ev[1] == I and r.resp.is_data and pending_clear is not None:
+                    status_zlp = True
+            else:
+                note("token %#x addr %d ep %d (nobody's)" % (ev[1], ev[2], ev[3]))
+        elif k == "data":
+            prev = events[i - 1] if i else None
+            if o == "ctl" and prev is not None and prev[0] == "tok" and prev[1] == S and r.resp.is_hs(ACK) and ev[3]:
+                su = ev[2]
+                if len(su) == 8 and su[0] == 0x02 and su[1] == 1 and su[2] == 0 and su[3] == 0 and su[6] == 0 and su[7] == 0:
+                    pending_clear = su[4] | (su[5] << 8)
+                note("SETUP %s" % bytes(su).hex())
+            elif isinstance(o, tuple) and o[0] == "out" and prev is not None and prev[0] == "tok" and prev[1] == O:
+                n = o[1]
+                bit = (ev[1] >> 3) & 1
+                if ev[3] and r.resp.is_hs(ACK):
+                    if bit == out_exp[n]:
+                        out_bytes[n] += list(ev[2])
+                        out_exp[n] ^= 1
+                        tags.add("ledger:out-accept")
+                    else:
+                        tags.add("ledger:out-repeat")
+                note("OUT ep%d DATA%d[%d]->%r" % (n, bit, len(ev[2]), r.resp), but=("out", n))
+                since[("out", n)].append("(own) DATA%d[%d]->%r" % (bit, len(ev[2]), r.resp))
+        elif k in ("hs", "hs+produce"):
+            if ev[1] == ACK and was_awaiting is not None:
+                in_exp[was_awaiting] ^= 1
+                note("ACK for ep%d" % was_awaiting, but=("in", was_awaiting))
+            if ev[1] == ACK and was_zlp and pending_clear is not None:
+                n, d_in = pending_clear & 0xF, bool(pending_clear & 0x80)
+                if d_in and n in in_exp:
+                    in_exp[n] = 0
+                    tags.add("ledger:halt-clear-in" + ("+out-twin" if n in out_exp else ""))
+                if not d_in and n in out_exp:
+                    out_exp[n] = 0
+                    tags.add("ledger:halt-clear-out" + ("+in-twin" if n in in_exp else ""))
+                named = ("in", n) if d_in else ("out", n)
+                note("CLEAR_FEATURE(ENDPOINT_HALT) wIndex %#06x completed" % pending_clear, but=named)
+                if named in since:
+                    since[named].append("(own) CLEAR_FEATURE(ENDPOINT_HALT) wIndex %#06x completed" % pending_clear)
+                pending_clear = None
+        elif k == "consume":
+            n = ev[1]
+            got = [b for (b, _f, _l) in r.delivered]
+            want = out_bytes[n][:len(got)]
+            if got != want or (len(got) < ev[2] and len(got) != len(out_bytes[n])):
+                fails.append({"cycle": i, "sig": "c12-out-toggle-changed-by-foreign-traffic",
+                              "what": "event %d %r: OUT endpoint %d delivered %d bytes %r, but by its own history (ACKed packets "
+                                      "carrying the PID it expects -- DATA0 first and after a completed halt-clear with wIndex %#x) "
+                                      "it holds %d bytes %r: it dropped a packet as a repetition, or accepted a repetition; %s"
+                                      % (i, ev, n, len(got), got[:16], n, len(out_bytes[n]), out_bytes[n][:16], foreign(("out", n)))})
+                return
+            out_bytes[n] = out_bytes[n][len(got):]
+            if not out_bytes[n]:
+                # everything accepted so far has been read back correctly: what came before the endpoint's last packet is
+                # settled; what came after it has not been put to the test yet
+                lst = since[("out", n)]
+                last_own = max([j for j, x in enumerate(lst) if x.startswith("(own) DATA")], default=-1)
+                since[("out", n)] = lst[last_own + 1:]
+
+
 def run_dev(desc):
     rng = Rng(desc["seed"])
     spec = desc.get("spec") or E.make_spec(rng.fork("spec"))
     h = E.EpHarness(spec, rng.fork("timing"))
     tags = set()
     fails = []
-    events, results = E.run_schedule(h, desc, rng, spec, "c12", tags, fails, "c12-babble")
+    events, results = run_schedule(h, desc, rng, spec, tags, fails)
     own = E.owners(spec, events, results)
     # -- nobody answers a token (or its data) that no endpoint of this device owns
     for i, (ev, r, o) in enumerate(zip(events, results, own)):
@@ -115,6 +365,9 @@ def run_dev(desc):
             fails.append({"cycle": i, "sig": "c12-unowned-token-answered",
                           "what": "event %d %r is addressed to no endpoint of this device but was answered %r" % (i, ev, r.resp)})
             break
+    # -- the toggle ledger (own history only)
+    if not fails:
+        toggle_ledger(spec, events, results, own, fails, tags)
     # -- the differential experiment
     trng = rng.fork("targets")
     cands = [(e[0], e[1]) for e in spec["eps"]]
